@@ -19,33 +19,27 @@ Theorem rules_defs_leave_existing_scanners : forall w x d w' r,
 Proof. exact rules_defs_leave_scanners_proof. Qed.
 Print Assumptions rules_defs_leave_existing_scanners.
 
-(* invalid definitions change nothing: the statement in full is REFUTED on the current tree
-   (yr_compiler_define_string_variable(c, x, NULL) returns ERROR_INVALID_ARGUMENT after writing the
-   table entry, compiler.c 764-780) ... *)
-Theorem invalid_define_changes_nothing_refuted : ~ invalid_define_changes_nothing_statement.
-Proof. exact invalid_define_refuted_proof. Qed.
-Print Assumptions invalid_define_changes_nothing_refuted.
+(* definitions with an unknown identifier, an incompatible type or a NULL string are rejected and change
+   nothing, at every level (the world before and after is the same) *)
+Theorem invalid_define_changes_nothing : forall w o c w',
+  is_define o = true -> step w o = (w', Res (RErr c)) -> w' = w.
+Proof. exact invalid_define_changes_nothing_proof. Qed.
+Print Assumptions invalid_define_changes_nothing.
 
-(* ... with these consequences in the model of the code (each replayed on the implementation by checks/c20.py) *)
-Theorem null_string_then_create_crashes :
-  snd (run world0 [OCDef 1%N (DS None); OGetRules; OCreate 0%nat]) =
-    [Res (RErr ERROR_INVALID_ARGUMENT); Res ROk; Res RCrash].
-Proof. exact null_string_then_create_crashes_proof. Qed.
-Theorem scanner_null_string_crashes :
-  snd (run world0 [OCDef 1%N (DS (Some [97%N])); OGetRules; OCreate 0%nat; OSDef 0%nat 1%N (DS None)]) =
-    [Res ROk; Res ROk; Res ROk; Res RCrash].
-Proof. exact scanner_null_string_crashes_proof. Qed.
+(* NULL strings at the three levels (compiler: since ce98a74, scanner: since 0dc25b3) *)
+Theorem null_string_rejected_everywhere :
+  snd (run world0 [OCDef 1%N (DS None); OCDef 1%N (DS (Some [97%N])); OCDef 1%N (DS None); OGetRules; ORDef 1%N (DS None);
+                   OCreate 0%nat; OSDef 0%nat 1%N (DS None); OSDef 0%nat 9%N (DS None); OScan 0%nat]) =
+    [Res (RErr ERROR_INVALID_ARGUMENT); Res ROk; Res (RErr ERROR_INVALID_ARGUMENT); Res ROk; Res (RErr ERROR_INVALID_ARGUMENT);
+     Res ROk; Res (RErr ERROR_INVALID_ARGUMENT); Res (RErr ERROR_INVALID_ARGUMENT); Seen [(1%N, PS [97%N])]].
+Proof. exact null_string_rejected_everywhere_proof. Qed.
+
+(* the one place left where the model of the code says "misbehaves" (known finding save-after-string-redefine):
+   yr_rules_define_string_variable stores a heap pointer in a relocatable slot, yr_rules_save_stream asserts *)
 Theorem save_after_string_redefine_crashes :
   snd (run world0 [OCDef 1%N (DS (Some [97%N])); OGetRules; OSave; ORDef 1%N (DS (Some [98%N])); OSave]) =
     [Res ROk; Res ROk; Res ROk; Res ROk; Res RCrash].
 Proof. exact save_after_string_redefine_crashes_proof. Qed.
-
-(* ... and holds for every other definition at every level *)
-Theorem invalid_define_changes_nothing_partial : forall w o c w',
-  is_define o = true -> (forall x, o <> OCDef x (DS None)) ->
-  step w o = (w', Res (RErr c)) -> w' = w.
-Proof. exact invalid_define_partial_proof. Qed.
-Print Assumptions invalid_define_changes_nothing_partial.
 
 (* the documented errors, per level (the levels differ: a boolean define on an integer variable is
    ERROR_INVALID_EXTERNAL_VARIABLE_TYPE on a rule set and accepted on a scanner) *)
@@ -61,17 +55,23 @@ Print Assumptions rules_define_codes.
 
 Theorem scanner_define_codes : forall o x d,
   snd (scanner_define o x d) =
-    match lookup x o with
-    | None => RErr ERROR_INVALID_ARGUMENT
-    | Some v =>
-        match d, v with
-        | DI _, PI _ | DB _, PI _ | DF _, PF _ | DS (Some _), PS _ => ROk
-        | DS None, PS _ => RCrash
-        | _, _ => RErr ERROR_INVALID_EXTERNAL_VARIABLE_TYPE
-        end
+    match d, lookup x o with
+    | DS None, _ => RErr ERROR_INVALID_ARGUMENT
+    | _, None => RErr ERROR_INVALID_ARGUMENT
+    | DI _, Some (PI _) | DB _, Some (PI _) | DF _, Some (PF _) | DS (Some _), Some (PS _) => ROk
+    | _, Some _ => RErr ERROR_INVALID_EXTERNAL_VARIABLE_TYPE
     end.
 Proof. exact scanner_define_codes_proof. Qed.
 Print Assumptions scanner_define_codes.
+
+Theorem compiler_define_codes : forall c x d,
+  snd (compiler_define c x d) =
+    match d with
+    | DS None => RErr ERROR_INVALID_ARGUMENT
+    | _ => if mem x (c_objs c) then RErr ERROR_DUPLICATED_EXTERNAL_VARIABLE else ROk
+    end.
+Proof. exact compiler_define_codes_proof. Qed.
+Print Assumptions compiler_define_codes.
 
 (* a condition over externals has the verdict of the same condition over literals of their values *)
 Theorem externals_behave_as_literals : forall env env' c b,
